@@ -296,6 +296,7 @@ func (s *server) ModifyColumnFamilies(ctx context.Context, req *btapb.ModifyColu
 		}
 	}
 
+	var dropped []string
 	for _, mod := range req.Modifications {
 		if create := mod.GetCreate(); create != nil {
 			if _, ok := cfs[mod.Id]; ok {
@@ -309,18 +310,7 @@ func (s *server) ModifyColumnFamilies(ctx context.Context, req *btapb.ModifyColu
 				return nil, fmt.Errorf("can't delete unknown family %q", mod.Id)
 			}
 			delete(cfs, mod.Id)
-			// Persist the drop before the purge: if the process dies in between, the family is gone (its
-			// remaining cells are invisible) instead of still being listed with part of its cells missing.
-			s.storage.SetTableMeta(tbl.def)
-
-			// Purge all data for this column family
-			tbl.rows.Ascend(func(r *btpb.Row) bool {
-				r, changed := scrubRow(r, tbl.cols())
-				if changed {
-					tbl.rows.ReplaceOrInsert(r)
-				}
-				return true
-			})
+			dropped = append(dropped, mod.Id)
 		} else if modify := mod.GetUpdate(); modify != nil {
 			cf, ok := cfs[mod.Id]
 			if !ok {
@@ -332,7 +322,29 @@ func (s *server) ModifyColumnFamilies(ctx context.Context, req *btapb.ModifyColu
 		}
 	}
 
+	// Persist the new definition once, as a whole and before any row is touched: if the process dies, the
+	// request is either not applied at all, or it is applied and at most some cells of a dropped family
+	// (invisible, the family is gone) are still to be purged. Persisting after each drop would expose a
+	// definition that holds only part of the request.
 	s.storage.SetTableMeta(tbl.def)
+
+	if len(dropped) > 0 {
+		// Purge all data of the dropped column families, also of one that the same request created again.
+		keep := make(map[string]*btapb.ColumnFamily, len(cfs))
+		for id, cf := range cfs {
+			keep[id] = cf
+		}
+		for _, id := range dropped {
+			delete(keep, id)
+		}
+		tbl.rows.Ascend(func(r *btpb.Row) bool {
+			r, changed := scrubRow(r, keep)
+			if changed {
+				tbl.rows.ReplaceOrInsert(r)
+			}
+			return true
+		})
+	}
 	return proto.Clone(tbl.def).(*btapb.Table), nil
 }
 
